@@ -18,7 +18,7 @@
 const char* const H_NAME = "c01_mixed";
 const char* const H_PROPERTY = "C01";
 
-enum { M_YIELD = 0, M_MUTEX, M_COND, M_SEM, M_RW, M_BARRIER, M_CHAN, M_MULTI, M_SLEEP, M_DETACH, M_PIPE, M_NKINDS };
+enum { M_YIELD = 0, M_MUTEX, M_COND, M_SEM, M_RW, M_BARRIER, M_CHAN, M_MULTI, M_SLEEP, M_DETACH, M_PIPE, M_CLOSESIG, M_NKINDS };
 #define MAXMOD 5
 #define MAXF 24
 typedef struct mod {
@@ -31,8 +31,10 @@ typedef struct mod {
   fiber_signal_t sig;
   fiber_unbounded_channel_t uch;
   fiber_multi_channel_t* mch;
-  int tokens, occ, readers, writers, got, pfd[2];
+  int tokens, occ, readers, writers, pfd[2];
+  volatile int got;
   volatile int flag;
+  fiber_t* waiter_fiber;
 } mod_t;
 static mod_t M[MAXMOD];
 static int nmod;
@@ -217,6 +219,50 @@ static void* f_pipe(void* p) {
   }
   return NULL;
 }
+/* one fiber goes through different suspension mechanisms in a row: blocked on a descriptor that another
+ * fiber closes, then waiting on a signal that a third fiber raises (the mechanisms share fiber_t.scratch) */
+static NS int g_blocked_on_fd(fiber_t* f) { return sim_fiber_lib_state(f) == FIBER_STATE_WAITING && sim_fiber_is_saved(f); }
+static void* f_closesig(void* p) {
+  arg_t* a = p;
+  mod_t* m = a->m;
+  unsigned char b[4];
+  if (a->role == 0) {
+    for (int i = 0; i < m->a; i++) {
+      ssize_t r = read(m->pfd[0], b, sizeof b); /* resumed by close() of the descriptor, or by data */
+      (void)r;
+      m->got = 1;
+      fiber_signal_wait(&m->sig);
+      m->got = 2;
+      op_done();
+      if (i + 1 < m->a) {
+        /* next round needs a fresh pipe */
+        while (m->flag != 2) RS0(fiber_yield);
+        m->flag = 0;
+      }
+    }
+  } else if (a->role == 1) { /* closer */
+    for (int i = 0; i < m->a; i++) {
+      while (!g_blocked_on_fd(m->waiter_fiber)) RS0(fiber_yield);
+      close(m->pfd[0]);
+      m->flag = 1;
+      op_done();
+      while (m->flag != 0 && i + 1 < m->a) RS0(fiber_yield);
+    }
+  } else { /* raiser */
+    for (int i = 0; i < m->a; i++) {
+      while (m->flag != 1) RS0(fiber_yield);
+      if (m->c) RS0(fiber_yield);
+      fiber_signal_raise(&m->sig);
+      while (m->got != 2) RS0(fiber_yield);
+      close(m->pfd[1]);
+      m->got = 0;
+      if (i + 1 < m->a && pipe(m->pfd) != 0) sim_violation("SIM-pipe", "pipe() failed");
+      m->flag = 2;
+      op_done();
+    }
+  }
+  return NULL;
+}
 static void spawn(void* (*fn)(void*), mod_t* m, int role) {
   args[nf].m = m;
   args[nf].role = role;
@@ -228,7 +274,7 @@ void h_run(void) {
   nmod = wl_int(1, sim_tier_thorough() ? MAXMOD : 4);
   char d[400];
   int dk = 0;
-  static const char* const kn[] = {"yield", "mutex", "cond", "sem", "rwlock", "barrier", "chan", "multi", "sleep", "detach", "pipe"};
+  static const char* const kn[] = {"yield", "mutex", "cond", "sem", "rwlock", "barrier", "chan", "multi", "sleep", "detach", "pipe", "close-then-signal"};
   for (int i = 0; i < nmod; i++) {
     M[i].kind = wl_pick(M_NKINDS);
     M[i].a = wl_int(1, 4);
@@ -309,6 +355,15 @@ void h_run(void) {
         if (pipe(m->pfd) != 0) sim_violation("SIM-pipe", "pipe() failed");
         spawn(f_pipe, m, 0);
         spawn(f_pipe, m, 1);
+        break;
+      case M_CLOSESIG:
+        if (pipe(m->pfd) != 0) sim_violation("SIM-pipe", "pipe() failed");
+        fiber_signal_init(&m->sig);
+        if (m->a > 2) m->a = 2;
+        spawn(f_closesig, m, 0);
+        m->waiter_fiber = fibers[nf - 1];
+        spawn(f_closesig, m, 1);
+        spawn(f_closesig, m, 2);
         break;
     }
     if (wl_pct(30)) fiber_yield();
